@@ -335,6 +335,35 @@ def run_frame(case, ctx):
                 except Exception as e:
                     ctx.violation(K + "%s/raised-after-refused-calls/%s" % (m, type(e).__name__), str(e)[:120], cfg=cfg)
             ctx.nontriv("frame", spec.name, vi, weighted)
+    if spec.name.startswith("Traceable"):
+        # a corpus that is already tokenised (documents are lists of tokens, tokenizer and preprocessor hand them
+        # through): fit, fit_transform and transform read the caller's documents, they do not rewrite them
+        import copy as _copy
+        cls_ = type(spec.make(0))
+
+        def ident(d_):
+            return d_
+        docs = [["aa", "bb", "aa"], ["the", "cat"], [], ["bb", "cc", "dd", "aa"], ["dog"]]
+        for opts_ in (dict(), dict(ngram_range=(1, 2)), dict(stop_words=["the"]), dict(ngram_range=(2, 3), binary=True)):
+            cfg = {"class": spec.name, "documents": "lists of tokens", "options": {k_: repr(v_) for k_, v_ in opts_.items()}}
+            try:
+                v_ = cls_(tokenizer=ident, preprocessor=ident, lowercase=False, token_pattern=None, **opts_)
+                held = _copy.deepcopy(docs)
+                mine = _copy.deepcopy(docs)
+                v_.fit(mine)
+                ok1 = mine == held
+                v_.fit_transform(mine)
+                ok2 = mine == held
+                v_.transform(mine)
+                ok3 = mine == held
+            except Exception as e:
+                ctx.excluded("pre-tokenised corpus refused: %s" % type(e).__name__)
+                continue
+            ctx.hit("frame.tokenised_corpus")
+            if not (ok1 and ok2 and ok3):
+                ctx.violation(K + "%s/input-modified/tokenised-corpus" % ("fit" if not ok1 else "fit_transform" if not ok2
+                                                                            else "transform"),
+                              "the caller's documents (lists of tokens) were rewritten: %r" % (mine[:2],), cfg=cfg)
     ctx.cls("class=" + spec.name)
     # a documented option that needs an optional dependency (verbose='tqdm'): whether the fit runs or is refused because
     # the package is missing, the option is reported unchanged afterwards
